@@ -163,7 +163,9 @@ where
 				}
 			};
 
+			jsonrpsee_core::verif_point!("server.ws.call_task.before_dispatch");
 			let rp = handle_rpc_call(&data[idx..], is_single, batch_requests_config, &*rpc_service, extensions).await;
+			jsonrpsee_core::verif_point!("server.ws.call_task.after_dispatch");
 
 			// Subscriptions are handled by the subscription callback and
 			// "ordinary notifications" should not be sent back to the client.
@@ -228,6 +230,7 @@ async fn send_task(
 			// Received message.
 			Either::Left((Some(response), not_ready)) => {
 				// If websocket message send fail then terminate the connection.
+				jsonrpsee_core::verif_point!("server.ws.send_task.before_write");
 				if let Err(err) = send_message(&mut ws_sender, response).await {
 					tracing::debug!(target: LOG_TARGET, "WS send error: {}", err);
 					break;
@@ -352,6 +355,7 @@ async fn graceful_shutdown<S>(
 	S: StreamExt<Item = Result<Incoming, SokettoError>> + Unpin,
 {
 	let pending_calls = ReceiverStream::new(pending_calls);
+	jsonrpsee_core::verif_point!("server.ws.graceful_shutdown.enter");
 
 	if let Ok(Shutdown::Stopped) = result {
 		let graceful_shutdown = pending_calls.for_each(|_| async {});
